@@ -80,4 +80,3 @@ func verifHarnessC20Apply() {
 	}
 	reach("end")
 }
-
